@@ -4,7 +4,7 @@
    Buffers are bit lists here; that Buffer operations act on bit lists is what the Buffer layer
    (Buffer.v + BufferSpec) establishes.  Definitions only. *)
 From Coq Require Import ZArith List Bool.
-From MS Require Import PyBase Bits.
+From MS Require Import PyBase Bits PySort.
 Import ListNotations.
 Open Scope Z_scope.
 
@@ -195,8 +195,14 @@ Definition ce_cmp (e1 e2 : centry) : Z :=
   if in_fids (ce_id e1) (ce_deps e2) then -1
   else if in_fids (ce_id e2) (ce_deps e1) then 1
   else ce_pos e1 - ce_pos e2.
-(* list.sort leaves a list alone when no element compares below its predecessor; any other order
-   of compute entries (rule fields not in packet order) is outside the model *)
+(* compute_entries.sort(key=cmp_to_key(compute_function_sort)): list.sort only asks whether x < y on the
+   keys, i.e. whether compute_function_sort(x, y) < 0.  The comparison is not an order in general; the
+   result is what CPython's algorithm computes (PySort.py_sort: count_run + binary insertion, fewer than
+   64 entries; None for 64 entries or more) *)
+Definition ce_lt (e1 e2 : centry) : bool := ce_cmp e1 e2 <? 0.
+Definition py_sort_ces (l : list centry) : option (list centry) := py_sort ce_lt l.
+(* list.sort leaves a list alone when no element compares below its predecessor
+   (SchcCodec.py_sort_sorted) *)
 Fixpoint ce_sorted (l : list centry) : bool :=
   match l with
   | e1 :: ((e2 :: _) as r) => negb (ce_cmp e2 e1 <? 0) && ce_sorted r
@@ -225,10 +231,12 @@ Definition decompress (ct : compute_table) (s : bits) (r : rule) (direction : op
   do x <- decompress_fields ct 0 (select_fds direction (rule_fds r)) s ;;
   let '(fs, ces, rest) := x in
   let fs := fs ++ [(payload_fid, rest)] in
-  if negb (ce_sorted ces) then Exc Unmodelled
-  else
-    do fs' <- run_computes ces fs ;;
-    Ok (concat (map snd fs')).
+  match py_sort_ces ces with
+  | None => Exc Unmodelled
+  | Some ces' =>
+    do fs' <- run_computes ces' fs ;;
+    Ok (concat (map snd fs'))
+  end.
 
 (* ---- rule matching -------------------------------------------------------------------------- *)
 Definition msb_match (v pat : bits) : bool :=
